@@ -48,6 +48,13 @@ def gen_cases(tier, seed):
             lo = pos + rng.randint(0, 2); hi = lo + rng.randint(0, 5); ranges.append((lo, hi)); pos = hi + 1
         span = max(1, ranges[-1][1] - ranges[0][0])
         consts = [rng.choice([0, 0.25, 0.5, 1, 2]) if rng.random() < 0.8 else rng.choice([0, 3 * span, 10 * span]) for _ in range(k)]
+        # the documented preconditions (non-overlapping ranges, x inside their union) do not ask for sorted ranges
+        r = rng.random()
+        if r < 0.25 and k > 1:
+            order = list(range(k)); rng.shuffle(order)
+            ranges = [ranges[j] for j in order]; consts = [consts[j] for j in order]
+        elif r < 0.4 and k > 1:
+            ranges = ranges[::-1]; consts = consts[::-1]
         cases.append({"kind": "pw", "ranges": ranges, "consts": consts})
     return cases
 
